@@ -28,6 +28,26 @@ TRUSTED = [
     "exceptions are identified by class name only; `raise Cls(args)` keeps no arguments",
 ]
 
+# what each property's equations additionally rest on (shown in the evidence next to TRUSTED)
+TRUSTED_PER = {
+    "C01": ["Lexer methods: self._source / self._position read as parameters, the new _position returned; `digits` / `ascii_letters` "
+            "are the constants of the standard `string` module; IGNORED_CHARS read as the module literal; exception arguments dropped"],
+    "C02": ["LINE_SEPARATOR.split read as Py.lineSepSplit (the pattern text r'\\r\\n|[\\n\\r]' is checked on every run); "
+            "the equation assumes len(raw) < sys.maxsize (2^63 - 1)"],
+    "C04": ["directive_arguments(SkipDirective / IncludeDirective, node, variables) read as the model's dirIf for @skip / @include "
+            "(the constants are checked to be those directives); schema.get_type_from_literal / is_possible_type / "
+            "isinstance(_, GraphQLAbstractType) read as the by-name schema model"],
+    "C05": ["same as C04 (shared executor model)"],
+    "C06": ["_same_value: print_ast(a) == print_ast(b) on list / object / null / variable literals read as the model's structural "
+            "comparison; type(v) as the literal's constructor; names compared as Lean Strings (code point order, as Python's str)",
+            "_types_conflict: types by name (Ty); isinstance(t, GraphQLLeafType) as the schema model's isLeaf"],
+    "C07": ["coerce_int / coerce_float: isinstance / is None / == '' / int() / float() / is_integer() / != / NaN and infinity tests on "
+            "the dynamically typed argument are parameters instantiated with the JSON-value model (PyNum); int(<float>) followed by "
+            "`numeric != f` is summarised by the hypothesis TruncSpec; exception classes are matched by name"],
+    "C10": [],
+    "C19": ["directive_arguments read as the depth model's evalOpt on the @skip / @include condition"],
+}
+
 HEAD = """import PyGqlModel.PyPrelude
 set_option linter.unusedVariables false
 namespace PyGql.Generated.Tr
@@ -127,12 +147,16 @@ def tr_overlap(ctx):
         isinstance_map={"_ast.ListValue": "isListValue", "_ast.ObjectValue": "isObjectValue",
                         "_ast.NullValue": "isNullValue", "_ast.Variable": "isVariable"},
         attrs={".value": ("value_of", V, OP("W"))})
+    T = OP("T")
+    perms = py2lean.translate_function(
+        src, "_permutations", "_permutations", params={"lst": TList(T)}, ret=TList(("Tuple", T, T)),
+        binders="{T : Type} (lst : List T)", implicit="{T : Type}")
     note = ("/- `_same_arguments` / `_same_value` are abstracted over the AST: `a.name.value` = arg_name a, `a.value` = arg_value a,\n"
             "   `type(v)` = class_of v, `isinstance(v, _ast.X)` = isX v, `print_ast`, `v.value` = value_of v are parameters;\n"
             "   `sorted(key=...)` is the stable insertion sort `Py.sortedBy` with `<` on names as a parameter. -/")
     return {"PyGqlModel/Generated/TrOverlap.lean":
-            _file("src/py_gql/validation/rules/overlapping_fields_can_be_merged.py (_types_conflict, _same_arguments, _same_value)",
-                  [(step, pysrc, cons), same_args, same_value], note,
+            _file("src/py_gql/validation/rules/overlapping_fields_can_be_merged.py (_types_conflict, _same_arguments, _same_value, _permutations)",
+                  [(step, pysrc, cons), same_args, same_value, perms], note,
                   head=HEAD.replace("import PyGqlModel.PyPrelude", "import PyGqlModel.Ty\nimport PyGqlModel.PyPrelude"))}
 
 
@@ -189,12 +213,37 @@ def tr_lexer(ctx):
     read_digits = py2lean.translate_function(
         src, "_read_over_digits", "Lexer._read_over_digits", cls="Lexer", params=dict(st), ret="Unit", self_state=["_position"],
         consts=consts, fuel=["len(self__source) - self__position + 1"])
+    read_integer = py2lean.translate_function(
+        src, "_read_over_integer", "Lexer._read_over_integer", cls="Lexer", params=dict(st), ret="Unit", self_state=["_position"],
+        consts=consts, methods={"_read_over_digits": "Lexer._read_over_digits"})
+    ignored = None
+    for n in ast.parse(src).body:
+        if isinstance(n, ast.Assign) and len(n.targets) == 1 and isinstance(n.targets[0], ast.Name) and n.targets[0].id == "IGNORED_CHARS":
+            try:
+                ignored = ast.literal_eval(n.value)
+            except Exception:
+                pass
+    if not isinstance(ignored, str):
+        raise Untranslatable("IGNORED_CHARS is not a string literal")
+    fn = py2lean.find_function(src, "_read_over_whitespace", cls="Lexer")
+    if [a.arg for a in fn.args.args] != ["self", "__ignored"] or [ast.unparse(d) for d in fn.args.defaults] != ["IGNORED_CHARS"]:
+        raise Untranslatable("signature of Lexer._read_over_whitespace is not (self, __ignored=IGNORED_CHARS)")
+    ws_consts = dict(consts)
+    ws_consts["__ignored"] = ("(%s : List Nat)" % py2lean._codes(ignored), TEXT)
+    ws_src = src.replace("self, __ignored: Container[str] = IGNORED_CHARS", "self")
+    read_ws = py2lean.translate_function(
+        ws_src, "_read_over_whitespace", "Lexer._read_over_whitespace", cls="Lexer", params=dict(st), ret="Unit",
+        self_state=["_position"], consts=ws_consts,
+        # outer loop, then the comment loop: every iteration of either consumes one character
+        fuel=["len(self__source) - pos + 1", "len(self__source) - pos + 1"])
     note = ("/- Methods of `Lexer`: `self._source` is the parameter `self__source`, `self._position` the parameter `self__position`\n"
             "   whose final value is returned next to the result; `Name(start, end, value)` is the triple of its arguments;\n"
             "   `digits` / `ascii_letters` are the constants of the standard `string` module (checked: imported from there);\n"
-            "   the exception arguments (position, source) are dropped. -/")
+            "   the exception arguments (position, source) are dropped; `self._read_over_digits()` is the translated method above run on\n"
+            "   the current attribute values; the default parameter `__ignored` is the module literal IGNORED_CHARS. -/")
     return {"PyGqlModel/Generated/TrLexer.lean":
-            _file("src/py_gql/lang/lexer.py (Lexer._read_name, Lexer._read_over_digits)", [read_name, read_digits], note)}
+            _file("src/py_gql/lang/lexer.py (Lexer._read_name, _read_over_digits, _read_over_integer, _read_over_whitespace)",
+                  [read_name, read_digits, read_integer, read_ws], note)}
 
 
 def tr_c01(ctx):
